@@ -833,6 +833,7 @@ theorem layoutLoose_frame (c : Cls) (segs : List Seg) (l : List SecBuf) (i : Nat
   | nil => exact ⟨[], by simp [layoutLoose], FrameL.refl (Placed.refl (c := c)) _⟩
   | cons s rest ih =>
     unfold layoutLoose
+    simp only [setOffsetLoose_eq]
     split
     · obtain ⟨l', e, f⟩ := ih (i + 1) _ (setOffset c s _ :: acc)
       exact ⟨setOffset c s (if lsws_need_align s.addrAlign pos then lsws_aligned pos s.addrAlign else pos) :: l',
@@ -1224,6 +1225,7 @@ theorem saveSection_eq (c : Cls) (enc : Enc) (shoff : BitVec 64) (se : BitVec 16
     (hs : shoff.toNat < 9223372036854775808) (ho : secWritten b = true → b.offset.toNat < 9223372036854775808) :
     saveSection c enc shoff se os b = applyWrites os (secWrites c enc shoff se b) := by
   unfold saveSection secWrites applyWrites
+  rw [secWritesData_eq]
   have e1 : shoff.toInt + Int.ofNat se.toNat * Int.ofNat b.index = ((shoff.toNat + se.toNat * b.index : Nat) : Int) := by
     rw [toInt_of_lt shoff hs]
     simp only [Int.ofNat_eq_natCast, Int.natCast_add, Int.natCast_mul]
@@ -1569,21 +1571,22 @@ theorem layoutLoose_eq (c : Cls) (segs : List Seg) (l : List SecBuf) (i : Nat) (
   | nil => simp [layoutLoose, looseSpec]
   | cons s rest ih =>
     unfold layoutLoose looseSpec
+    simp only [lsws_advance_eq, setOffsetLoose_eq]
     split
-    · simp only [lsws_advance_eq]
-      rw [ih]; simp
+    · simp only
+      rw [ih]; simp <;> exact ⟨rfl, rfl⟩
     · rw [ih]; simp
 
 theorem setOffset_fields (c : Cls) (s : SecBuf) (p : BitVec 64) :
     (setOffset c s p).stype = s.stype ∧ (setOffset c s p).size = s.size ∧ (setOffset c s p).addrAlign = s.addrAlign ∧
     setOffset c (setOffset c s p) p = setOffset c s p := by
   by_cases h : (s.index != 0) = true
-  · have e : setOffset c s p = { s with offset := truncA c p } := by unfold setOffset; rw [if_pos h]
+  · have e : setOffset c s p = { s with offset := truncA c p } := by rw [setOffset_eq, if_pos h]
     have e' : setOffset c { s with offset := truncA c p } p = { s with offset := truncA c p } := by
-      unfold setOffset; rw [if_pos h]
+      rw [setOffset_eq, if_pos h]
     rw [e, e']
     exact ⟨rfl, rfl, rfl, rfl⟩
-  · have e : setOffset c s p = s := by unfold setOffset; rw [if_neg h]
+  · have e : setOffset c s p = s := by rw [setOffset_eq, if_neg h]
     rw [e, e]
     exact ⟨rfl, rfl, rfl, rfl⟩
 
@@ -2042,7 +2045,8 @@ theorem stepPlace_eq (c : Cls) (g : Seg) (ss : BitVec 64) (sec : SecBuf) (p : Bi
       { sec with addr := if sec.addrSet then sec.addr else truncA c (wsd_new_addr g.vaddr p ss),
                  addrSet := true,
                  offset := if (sec.index != 0) = true then truncA c p else sec.offset } := by
-  unfold stepPlace setOffset
+  unfold stepPlace
+  rw [setOffset_eq]
   cases ha : sec.addrSet
   · by_cases hi : (sec.index != 0) = true
     · simp only [Bool.not_false, if_true, hi, Bool.false_eq_true, if_false]
